@@ -16,3 +16,74 @@ def rule_cache(ctx):
 
 
 RULES = [rule_cache]
+
+
+def rule_prov(ctx) -> RuleResult:
+    import ast
+
+    from ..model import AnalysisError, unparse
+
+    res = RuleResult(
+        "C18.PROV",
+        "C18",
+        "every argument handed to Drillhole.add_vertices in validate_depth_data / validate_interval_data is "
+        "self.desurvey(d) with d derived from the depths being added (never from the values, never raw depths as coordinates)",
+        floor=4,
+    )
+    p = ctx.p
+    dh = p.cls("Drillhole")
+    n_calls = 0
+    for name, fn in dh.methods.items():
+        calls = [c for c in ast.walk(fn.node) if isinstance(c, ast.Call) and unparse(c.func) == "self.add_vertices"]
+        if not calls:
+            continue
+        defs = {}
+        for a in ast.walk(fn.node):
+            if isinstance(a, ast.Assign):
+                for t in a.targets:
+                    for nm in ([t] if isinstance(t, ast.Name) else [e for e in ast.walk(t) if isinstance(e, ast.Name)]):
+                        defs.setdefault(nm.id, []).append(a.value)
+        params = fn.params[1:]
+        depth_params = [q for q in params if q in ("depth", "from_to", "depths")]
+        value_params = [q for q in params if q in ("values",)]
+
+        def roots(e, seen=()):
+            out = set()
+            for x in ast.walk(e):
+                if isinstance(x, ast.Name):
+                    if x.id in defs and x.id not in seen and x.id not in params:
+                        for d in defs[x.id]:
+                            out |= roots(d, seen + (x.id,))
+                    else:
+                        out.add(x.id)
+            return out
+
+        for c in calls:
+            n_calls += 1
+            a = c.args[0] if c.args else None
+            where = f"{fn.module.relpath}:{c.lineno}"
+            is_des = isinstance(a, ast.Call) and unparse(a.func) == "self.desurvey" and len(a.args) == 1
+            if not is_des:
+                res.inst(f"Drillhole.{name}:{c.lineno} add_vertices({unparse(a)[:40]})", ok=False)
+                res.find("Drillhole", name, f"add_vertices({unparse(a)[:40]}) is not a desurveyed position", where,
+                         "vertices created for depth data are not located on the surveyed path")
+                continue
+            r = roots(a.args[0])
+            ok = any(q in r for q in depth_params) and not any(q in r for q in value_params)
+            res.inst(f"Drillhole.{name}:{c.lineno} add_vertices(self.desurvey({unparse(a.args[0])[:40]})) <- {sorted(r & set(params))}", nontrivial=True, ok=ok)
+            if not ok:
+                res.find("Drillhole", name, f"desurveyed depths derive from {sorted(r & set(params))}", where,
+                         "the positions of the new vertices are computed from something else than the depths being added")
+    if n_calls < 4:
+        raise AnalysisError(f"C18.PROV: only {n_calls} add_vertices call sites found")
+    # the same depths feed the DEPTH / FROM / TO data
+    vd = dh.methods["validate_depth_data"]
+    txt = unparse(vd.node)
+    ok = "self.depths = np.r_[" in txt and "depth" in txt
+    res.inst("validate_depth_data: the DEPTH data are extended with the same `depth` array", ok=ok)
+    if not ok:
+        res.find("Drillhole", "validate_depth_data", "DEPTH data not extended with the added depths", vd.where, "values are attached to vertices whose DEPTH is something else")
+    return res
+
+
+RULES = [rule_cache, rule_prov]
